@@ -88,8 +88,7 @@ ExpSchema(i) == LET S == [rules |-> Family[i]]  CH == AllChains(S) IN
 (* Laws of the reference (stage A). A law that fails is printed; witnesses show the laws are not vacuous. *)
 DevT == [temprep |-> TRUE, prebound |-> FALSE]
 DevP == [temprep |-> FALSE, prebound |-> TRUE]
-RefsTwice(S) == \E i \in 1..NRules(S) : \E a, b \in 1..Len(S.rules[i].name) :
-                  a # b /\ S.rules[i].name[a].k = "r" /\ S.rules[i].name[b] = S.rules[i].name[a]
+RefsTwice(S) == \E i \in 1..NRules(S) : Cardinality({a \in 1..Len(S.rules[i].name) : S.rules[i].name[a].k = "r"}) >= 2
 Laws(i) == LET S == [rules |-> Family[i]]  CH == AllChains(S)
                NI == 1..Len(ENames)
                MS == {<<ni, MatchWith(S, CH, ENames[ni], NoDev)>> : ni \in NI}       \* evaluated once
